@@ -12,7 +12,7 @@ import (
 
 // C08 — decoding is independent of how the transport segments the byte stream.
 func C08(c *vk.Ctx) {
-	c.Rule("server streams = all scripts of length <= n (quick 2, thorough 3) over the C03 packet alphabet, rendered at revisions 54460 and 54405, plain and LZ4, typed and Auto binding; segmentations of each stream: one byte per read, every two-piece split (all offsets), the same deliveries with the server closing right after its last byte and the transport returning the end of the stream together with the last bytes (n > 0 with io.EOF, as crypto/tls does), every two-piece split with 2 s of idle time before each piece (each wait inside the read timeout, the packet as a whole not), an idle gap longer than the read timeout before every packet (clock steps, read deadline fires and is retried), also under a context whose deadline is an hour away, for streams <= 16 bytes all 2^(n-1) segmentations, and (thorough) every three-piece split of streams <= 96 bytes. Each case is one execution of the real Connect + Do; oracle: callback trace and return value equal the reference interpreter's, i.e. the unsegmented outcome. distinct_nontrivial = (stream, segmentation) cases.")
+	c.Rule("server streams = all scripts of length <= n (quick 2, thorough 3) over the C03 packet alphabet, rendered at revisions 54460 and 54405, plain and LZ4, typed and Auto binding; segmentations of each stream: one byte per read, every two-piece split (all offsets), the same deliveries with the server closing right after its last byte and the transport returning the end of the stream together with the last bytes (n > 0 with io.EOF, as crypto/tls does), every two-piece split with 2 s of idle time before each piece (each wait inside the read timeout, the packet as a whole not), an idle gap longer than the read timeout before every packet (clock steps, read deadline fires and is retried), also under a context whose deadline is an hour away, every two-piece split and bytewise delivery on a client with a past (connected longer ago than the handshake time-out; an earlier query under a 10 s context whose deadline has passed since), for streams <= 16 bytes all 2^(n-1) segmentations, and (thorough) every three-piece split of streams <= 96 bytes. Each case is one execution of the real Connect + Do; oracle: callback trace and return value equal the reference interpreter's, i.e. the unsegmented outcome. distinct_nontrivial = (stream, segmentation) cases.")
 	quick := c.Quick()
 	maxLen := 2
 	if !quick {
@@ -88,6 +88,18 @@ func C08(c *vk.Ctx) {
 					if !quick || (!lz4 && b == "typed" && rev == ServerRev) {
 						for i := 1; i < n; i++ {
 							run(k, seg{cuts: []int{i}, inner: 2 * time.Second}, "idle-inside-packet", fmt.Sprintf("idle-%d", i))
+						}
+					}
+					// a client with a past: connected long ago, or an earlier query under a context
+					// whose deadline has passed since; then the stream in two pieces and bytewise
+					if !quick || (!lz4 && b == "typed" && rev == ServerRev) {
+						for _, pre := range []string{"idle", "ok+idle"} {
+							kp := k
+							kp.pre = pre
+							run(kp, seg{oneByte: true}, "client-with-a-past", "1b")
+							for i := 1; i < n; i++ {
+								run(kp, seg{cuts: []int{i}}, "client-with-a-past", fmt.Sprintf("%d", i))
+							}
 						}
 					}
 					// the server closes right after its last byte and the transport reports the end
